@@ -38,7 +38,7 @@ type Config struct {
 	// session starts reading.
 	// (A transport may let the peer talk as soon as it is connected; the legacy SSE transport does.)
 	ClientFirst bool `json:"client_first,omitempty"`
-	// SlowFlush (sse only): the server's first flush of the event stream (the endpoint event) returns 1 ms
+	// SlowFlush (sse; streamable: the first flush of every response, POST included): the server's first flush of the event stream (the endpoint event) returns 1 ms
 	// after the client has seen it, so a prompt client POSTs before the handler has gone on.
 	SlowFlush bool `json:"slow_flush,omitempty"`
 }
@@ -157,6 +157,10 @@ func New(server *mcp.Server, cfg Config) (*Link, error) {
 		h := mcp.NewStreamableHTTPHandler(func(*http.Request) *mcp.Server { return server }, opts)
 		l.Handler = h
 		l.HTTP = &memhttp.Transport{Handler: h}
+		if cfg.SlowFlush {
+			// every first Flush of a response (GET and POST) returns 1 ms after its data reached the client
+			l.HTTP.FirstFlushLag, l.HTTP.FlushLagOnPOST = time.Millisecond, true
+		}
 		l.ClientTransport = &mcp.StreamableClientTransport{Endpoint: "http://mcp.example/mcp", HTTPClient: l.HTTP.Client(), DisableStandaloneSSE: cfg.NoStandalone}
 	default:
 		return nil, fmt.Errorf("unknown link kind %q", cfg.Kind)
